@@ -20,10 +20,15 @@ import re
 import struct
 import subprocess
 
+import sys
+
 from vlib import build as B
 from vlib import core
 
 HERE = os.path.dirname(os.path.abspath(__file__))
+if HERE not in sys.path:
+    sys.path.insert(0, HERE)
+import util_tie as U      # noqa: E402  (containers leg: coq/Util models vs lib/util/src)
 LEVEL = "proof"
 
 COMPRESSORS = ["gzip", "xz", "lzma", "lz4", "zstd"]
@@ -854,7 +859,27 @@ def generate(ctx, rnd, images, n_cases):
     return cases
 
 
+def refresh_util_constants(ctx):
+    """coq/Util/GenUtil.v follows the working tree (hash_sizes[], struct sizes, array growth): when it changes the
+    theorems of the containers section are re-checked against the new values"""
+    changed, err = U.regen_util_constants()
+    if err:
+        ctx.proof_broken.append("Util/GenUtil.v: " + err)
+    if changed:
+        ctx.log("Util/GenUtil.v changed -> re-checking the proofs")
+        ctx.proof_broken = [b for b in ctx.proof_broken if not b.startswith("theorem")]
+        with core.Lock("coq"):
+            rc, log = core.coq_make(core.prop_deps("C19"))
+        core.prepare_proofs(ctx)
+        if rc != 0:
+            m = re.search(r'File "\./(Util/[A-Za-z0-9_]+\.v)", line (\d+)[^\n]*\n(Error:.*?)(?:\nmake|\Z)', log, re.S)
+            ctx.proof_broken.insert(0, "a constant of lib/util/src (hash_sizes[] / struct layout / array growth) changed and a "
+                                       "lemma of coq/Util that relies on it no longer checks: %s"
+                                    % ((m.group(1) + " line " + m.group(2) + ": " + m.group(3)[:400]) if m else log[-600:]))
+
+
 def run(ctx):
+    refresh_util_constants(ctx)
     info, exe = build_all(ctx)
     drv = core.build_model_driver("C19", "ExtractC19.v", os.path.join(HERE, "driver.ml"))
     ctx.trusted += [
@@ -863,7 +888,17 @@ def run(ctx):
         "layer (ii) of the model is a hand transcription of the C copy/destroy hooks: tied to the code through "
         "the probes' object-graph report at copy time, refcounts, observable answers and sanitizer verdicts only",
     ]
+    ctx.trusted += [
+        "props/C19/h_utilmodel.c + hu_cmp_dir.c (container harness: #includes lib/util/src/{hash_table,rbtree,str_table,array}.c, "
+        "numbers node / bucket allocations, removal = upstream's three assignments), props/C19/driver_util.ml (printing glue), "
+        "props/C19/gen_util_constants.c -> coq/Util/GenUtil.v",
+        "coq/Util models are hand transcriptions of the four container files, tied by answers and structural dumps of "
+        "operation sequences; allocation failure is not modelled",
+    ]
     ctx.assumptions += [
+        "containers: the key comparator is a strict weak order (rbtree theorems; checked on sampled keys for the directory "
+        "reader's comparator); fewer than 2^30 entries in a hash table (32 bit address arithmetic of the last row of hash_sizes[] "
+        "can wrap: hash_table_last_row_wraps); hashes are 32 bit values",
         "operations between copy and release are 'local' (touch only the object's own cells and fresh ones, keep it "
         "well-formed, are functions of its abstract value): hypothesis of interleaving_independent, exhibited for one "
         "concrete operation (run_set) and observed for the real operations through the twin comparison",
@@ -876,6 +911,11 @@ def run(ctx):
     if ctx.replay:
         rp = json.load(open(ctx.replay))
         return replay(ctx, rp, info, exe, drv)
+
+    # containers first (extracted models of coq/Util vs the real hash_table / rbtree / str_table / array): a defect in
+    # lib/util is reported here with a concrete container-level input before the object-level legs meet its consequences
+    ustats = U.run_leg(ctx, info)
+    ctx.log("container models vs lib/util done: %r" % (ustats,))
 
     comps = COMPRESSORS if ctx.tier == "thorough" else [COMPRESSORS[(ctx.seed + i) % 5] for i in range(3)]
     if ctx.tier == "thorough":
@@ -905,7 +945,7 @@ def run(ctx):
 
     ctx.coverage["evaluations"] = stats["cases"]
     ctx.coverage["distinct_nontrivial"] = len(stats["nontrivial"])
-    ctx.coverage["traces_validated_against_impl"] = stats["l2"] + stats["l1"]
+    ctx.coverage["traces_validated_against_impl"] = stats["l2"] + stats["l1"] + ustats["cases"]
     ctx.coverage["rule"] = (
         "seed %d: %d op sequences 'create; history; copy; interleaved ops on original and copy; drop x2 (orders OC, CO, "
         "one only, none)' over kinds idtbl fragtbl xwr comp(x%d configurations of gzip/xz/lzma/lz4/zstd, compress and "
@@ -918,6 +958,10 @@ def run(ctx):
                                         layer2_graphs_compared=stats["l2"], layer1_traces_compared=stats["l1"],
                                         crashed=len([1 for v in results.values() if v[1]]),
                                         pool_allocator_cases=(pool_stats or {}).get("cases", 0))
+    ctx.coverage["distribution"]["container_model_cases"] = ustats["by_kind"]
+    ctx.coverage["distribution"]["container_model_answers_compared"] = ustats["answers"]
+    ctx.coverage["distribution"]["container_model_dumps_compared"] = ustats["dumps"]
+    ctx.coverage["distribution"]["container_model_distinct_aims"] = ustats["aims"]
     by_kind = {}
     for c in cases:
         by_kind[c.kind] = by_kind.get(c.kind, 0) + 1
@@ -981,6 +1025,11 @@ def image_spec(c):
 
 def replay(ctx, rp, info, exe, drv):
     """re-run one stored case: regenerate its image (same tree seed, same compressor), same script"""
+    if rp.get("kind") == "utilcase":
+        st = U.replay_case(ctx, info, rp) if rp.get("case") else dict(cases=0)
+        ctx.coverage["evaluations"] = st.get("cases", 0)
+        ctx.coverage["rule"] = "replay of " + ctx.replay
+        return
     if rp.get("kind") == "util":
         ctx.seed = int(rp.get("seed", ctx.seed))
         run_util(ctx, info, [])
@@ -1032,3 +1081,4 @@ def replay(ctx, rp, info, exe, drv):
 
 def setup():
     core.build_model_driver("C19", "ExtractC19.v", os.path.join(HERE, "driver.ml"))
+    core.build_model_driver("C19util", "ExtractC19Util.v", os.path.join(HERE, "driver_util.ml"))
